@@ -187,34 +187,58 @@ def impl_table_line(w):
     return " ".join(toks)
 
 
-def table_probabilities(w, n):
-    """exact selection probabilities of the implementation's own table: row uniform, x uniform on [0, mean)"""
-    mean = Fr(w._mean_rate)
-    rows = w._table
-    P = [Fr(0)] * n
+SCALE = 2 ** 1074
+
+
+def fint(x):
+    """a finite double as an integer multiple of 2^-1074 (exact)"""
+    return int(Fr(x) * SCALE)
+
+
+def table_check(table, mean_rate, rates, index_of_item=lambda it: it):
+    """exact selection probabilities of the implementation's own table (row uniform, x uniform on [0, mean)) against
+    rate/total, in exact integer arithmetic.  -> (worst item, its |P - rate/total| as a Fraction, problem or None)"""
+    n = len(rates)
+    mean = fint(mean_rate)
+    nrows = len(table)
+    num = [0] * n                       # P_i * nrows * mean  (in units of 2^-1074)
     bad = None
-    for row in rows:
-        s = Fr(row[0].rate)
-        ps = min(max(s, Fr(0)), mean) / mean       # measure of {x in [0, mean) : x <= s.rate} / mean
-        P[row[0].item] += ps
+    for row in table:
+        s = min(max(fint(row[0].rate), 0), mean)      # measure of {x in [0, mean) : x <= s.rate}
+        num[index_of_item(row[0].item)] += s
         if len(row) == 2:
-            P[row[1].item] += 1 - ps
-        elif ps != 1:
-            bad = "a one-entry row is left with probability %s (IndexError)" % float(1 - ps)
-    return [p / len(rows) for p in P], bad
+            num[index_of_item(row[1].item)] += mean - s
+        elif s != mean:
+            bad = "a one-entry row is left with probability %g (IndexError)" % (1 - s / mean)
+    r = [fint(x) for x in rates]
+    tot = sum(r)
+    den = nrows * mean * tot
+    worst, werr = 0, -1
+    for i in range(n):
+        e = abs(num[i] * tot - r[i] * nrows * mean)       # |P_i - r_i/tot| * den
+        if e > werr:
+            worst, werr = i, e
+    return worst, Fr(werr, den), bad
 
 
 def in_quantifier(rates):
     if not rates or any((not math.isfinite(r)) or r < 0 for r in rates):
         return False
-    tot = sum(Fr(r) for r in rates)
-    return Fr(10) ** -280 <= tot <= Fr(10) ** 280
+    return max(rates) <= 1e280 and 1e-280 <= math.fsum(rates) <= 1e280
 
 
 def walker_part(ctx, wmod, draws):
     rng = ctx.rng
-    N = ctx.n(1500, 40000)
-    cases = list(CORPUS) + [gen_rates(rng, not ctx.quick) for _ in range(N)]
+    N = ctx.n(4000, 40000)
+    chunk = 800
+    walker_cases(ctx, wmod, draws, list(CORPUS))
+    for start in range(0, N, chunk):
+        walker_cases(ctx, wmod, draws, [gen_rates(rng, not ctx.quick) for _ in range(min(chunk, N - start))])
+    walker_blackbox(ctx, wmod, draws)
+
+
+def walker_cases(ctx, wmod, draws, cases):
+    rng = ctx.rng
     n_samples = 0
     # one driver session over all cases: build, then the samples of that table
     req, plan = [], []
@@ -279,22 +303,20 @@ def walker_part(ctx, wmod, draws):
             if not inq:
                 continue
             # ---- oracle on the implementation's own table
-            tot = sum(Fr(r) for r in rates)
+            tot = Fr(sum(fint(r) for r in rates), SCALE)
             if abs(Fr(w.total_rate) - tot) > Fr(n + 2, 2 ** 53) * tot:
                 ctx.fail("Walker.total_rate:not-the-sum", case, f"total_rate {w.total_rate!r} vs exact sum {float(tot)!r}")
             if len(w._table) != n:
                 ctx.fail("Walker._table:row-count", case, f"{len(w._table)} rows for {n} items")
-            P, bad = table_probabilities(w, n)
+            worst, err, bad = table_check(w._table, w._mean_rate, rates)
             if bad:
                 ctx.fail("Walker._table:single-row-below-mean", case, bad)
             tol = Fr(n + 10, 2 ** 50)
-            worst = max(range(n), key=lambda i: abs(P[i] - Fr(rates[i]) / tot))
-            err = abs(P[worst] - Fr(rates[worst]) / tot)
             ctx.extra["max_probability_error_in_units_of_n_ulp"] = max(
                 ctx.extra.get("max_probability_error_in_units_of_n_ulp", 0.0), float(err * 2 ** 53 / n))
             if err > tol:
                 ctx.fail("Walker:selection-probability-not-rate/total", {**case, "item": worst},
-                         f"P(item {worst}) = {float(P[worst])!r} but rate/total = {float(Fr(rates[worst]) / tot)!r}")
+                         f"P(item {worst}) differs from rate/total = {rates[worst] / float(tot)!r} by {float(err)!r}")
             # zero-rate items: reachable at all?  (closed lower end of the draw range: x = 0.0 is a possible draw)
             for k, row in enumerate(w._table):
                 it = row[0]
@@ -338,8 +360,12 @@ def walker_part(ctx, wmod, draws):
                              f"draw {x!r} on row {k} returns item {got} whose rate is 0.0")
     ctx.count("walker-samples", n_samples)
 
+
+
+def walker_blackbox(ctx, wmod, draws):
     # ---- black-box oracle: selection probabilities measured through the real sample_cell by bisection
-    M = ctx.n(60, 1500)
+    rng = ctx.rng
+    M = ctx.n(150, 1500)
     for _ in range(M):
         kind, rates = gen_rates(rng, False)
         if len(rates) > 80 or not in_quantifier(rates):
@@ -381,7 +407,7 @@ def walker_part(ctx, wmod, draws):
         ctx.evaluations += 1
         ctx.count("blackbox-probability-tables")
         if ok:
-            tot = sum(Fr(r) for r in rates)
+            tot = Fr(sum(fint(r) for r in rates), SCALE)
             for i in range(n):
                 if abs(P[i] / len(w._table) - Fr(rates[i]) / tot) > Fr(n + 10, 2 ** 50):
                     ctx.fail("Walker:selection-probability-not-rate/total", {"rates": [r.hex() for r in rates], "item": i},
@@ -608,20 +634,13 @@ def handler_config(ctx, cfg, draws, seed, nsend):
                     ctx.disagree("handler.init (walker table)", {**case0, "walker": ul, "direction": d}, impl[:300], rl[:300])
                 # oracle: probabilities of this table vs max(bound, 0) / sum
                 rates = [max(handler._derivative_bounds[c][d][0 if ul == "u" else 1], 0.0) for c in dom_cells]
-                tot = sum(Fr(r) for r in rates)
+                tot = Fr(sum(fint(r) for r in rates), SCALE)
                 n = len(rates)
-                P = [Fr(0)] * n
-                for row in w._table:
-                    ps = min(max(Fr(row[0].rate), Fr(0)), Fr(w._mean_rate)) / Fr(w._mean_rate)
-                    P[dom_index[row[0].item]] += ps
-                    if len(row) == 2:
-                        P[dom_index[row[1].item]] += 1 - ps
-                for j in range(n):
-                    if abs(P[j] / len(w._table) - Fr(rates[j]) / tot) > Fr(n + 10, 2 ** 50):
-                        ctx.fail("CellVetoEventHandler:offset-probability-not-bound/total",
-                                 {**case0, "walker": ul, "direction": d, "cell": list(dom_cells[j].identifier)},
-                                 f"P = {float(P[j] / len(w._table))!r}, bound/total = {float(Fr(rates[j]) / tot)!r}")
-                        break
+                worst, err, bad = table_check(w._table, w._mean_rate, rates, lambda it: dom_index[it])
+                if bad or err > Fr(n + 10, 2 ** 50):
+                    ctx.fail("CellVetoEventHandler:offset-probability-not-bound/total",
+                             {**case0, "walker": ul, "direction": d, "cell": list(dom_cells[worst].identifier)},
+                             bad or f"P differs from bound/total = {rates[worst] / float(tot)!r} by {float(err)!r}")
                 if abs(Fr(w.total_rate) - tot) > Fr(n + 2, 2 ** 53) * tot:
                     ctx.fail("CellVetoEventHandler:total-rate-not-sum-of-bounds", {**case0, "walker": ul, "direction": d},
                              f"{w.total_rate!r} vs {float(tot)!r}")
@@ -746,8 +765,8 @@ def run(ctx):
                 "in-states, with/without charge) with a scripted estimator (signed, zero and non-positive bounds)")
     try:
         walker_part(ctx, wmod, draws)
-        nsend = ctx.n(150, 3000)
-        reps = ctx.n(1, 4)
+        nsend = ctx.n(300, 2500)
+        reps = ctx.n(1, 3)
         for rep in range(reps):
             for ci, cfg in enumerate(HANDLER_CONFIGS):
                 # corpus first: a fixed estimator script whose tables contain zero-bound offsets (handler-level witness of F4)
